@@ -244,6 +244,31 @@ def check(case):
                     if dph > 1e-4 and abs(c) > 0:
                         fails.append(('current:phase', 'pulse %d prints phase %r for %r' % (row[0], row[4], math.degrees(math.atan2(c.imag, c.real)))))
                         break
+        # junction rows ('J'): the current through that wire end, i.e. the signed sum of the pulse currents through it
+        # (same oracle as C09; the end-1 rows of junctions with >= 3 ends are left to C09, see finding F-C09a)
+        from ..ref import topology as rtop
+        imax_ = float(np.abs(I).max()) or 1.0
+        for w, blk in enumerate(rep['currents']):
+            rows = blk['rows']
+            for e in (0, 1):
+                if (w, e) in topo.grounded or not rows:
+                    continue
+                j = topo.junctions[topo.junc_of[(w, e)]]
+                if len(j) < 2 or (j[0] == (w, e) and e == 0 and len(j) >= 3):
+                    continue
+                row = rows[0] if e == 0 else rows[-1]
+                if row[0] != 'J':
+                    fails.append(('structure:junction-row', 'object %d end %d: no J row (%r)' % (w, e + 1, row[0])))
+                    break
+                ref, cnt = rtop.end_current(topo, I, w, e)
+                val = complex(row[1], row[2])
+                seen.extend([ref.real, ref.imag])
+                if abs(val - ref) > 5e-6 * max(abs(ref), abs(val)) + 2e-7 * imax_:
+                    fails.append(('current:junction-row', 'object %d end %d prints %r, the pulse currents through this end sum to %r'
+                                  % (w, e + 1, val, ref)))
+                    break
+                if abs(val) > 0 and abs(abs(val) - row[3]) > 1e-5 * abs(val):
+                    fails.append(('current:mag-vs-components', 'J row of object %d' % w))
     # far field
     kw = {}
     if case['ffpwr'] is not None:
